@@ -1,6 +1,7 @@
 package interp
 
 import (
+	"unicode/utf8"
 	shioridom "github.com/go-shiori/dom"
 	"bytes"
 	"go/types"
@@ -106,6 +107,35 @@ func init() {
 		}
 		v := value(native{bytes.NewReader(b)})
 		return &v
+	}
+	// io.ReadAll / ioutil.ReadAll on a modelled (native, concrete) reader
+	readAll := func(fr *frame, a []value) value {
+		r := readerOf(a[0])
+		if r == nil {
+			panic(unsupported{"io.ReadAll of an unmodelled reader"})
+		}
+		b, err := io.ReadAll(r)
+		out := make([]value, len(b))
+		for i, c := range b {
+			out[i] = c
+		}
+		if err != nil {
+			return tuple{out, mkErr(err.Error())}
+		}
+		return tuple{out, iface{}}
+	}
+	intrinsics["io.ReadAll"] = readAll
+	intrinsics["io/ioutil.ReadAll"] = readAll
+	intrinsics["unicode/utf8.Valid"] = func(fr *frame, a []value) value {
+		bs := a[0].([]value)
+		b := make([]byte, len(bs))
+		for i, x := range bs {
+			if _, sym := x.(*Sym); sym {
+				panic(unsupported{"utf8.Valid of symbolic bytes"})
+			}
+			b[i] = byte(asInt64(x))
+		}
+		return utf8.Valid(b)
 	}
 	intrinsics["bytes.NewBufferString"] = func(fr *frame, a []value) value {
 		v := value(native{strings.NewReader(conc(a[0]))})
